@@ -1,7 +1,7 @@
 (* C14 — property theorems only.  Each is closed by [exact] of a lemma from
    Proofs.v; the driver pins the statements with [Check] and prints the
    assumptions on every run. *)
-From Yv Require Import Common.Base C14.Model C14.Spec C14.Run C14.Chain C14.Proofs C14.ProofsPipe C14.ProofsRun C14.ProofsChain.
+From Yv Require Import Common.Base C14.Model C14.Spec C14.Run C14.Chain C14.Proofs C14.ProofsPipe C14.ProofsRun C14.ProofsChain C14.ProofsUtf8.
 
 (* received ++ pipe content ++ unsent = payload, in every reachable state, for
    every configuration and every schedule (no hypothesis at all) *)
@@ -121,7 +121,25 @@ Theorem chain_terminates :
     crun c (cinit chunks n) ls = Some s -> length ls <= chain_bound chunks n.
 Proof. exact chain_terminates_lemma. Qed.
 
+(* output that is not valid UTF-8: after the lossy decoding exactly the
+   trailing newlines are removed, and the newline bytes at the end of the
+   output are all that is dropped, whatever bytes precede them *)
+Theorem subst_value_is_stripped_decoding :
+  forall bytes, strip_spec (utf8_lossy bytes) (subst_value bytes).
+Proof. exact subst_value_spec. Qed.
+
+Theorem lossy_decoding_keeps_trailing_newlines :
+  forall s k, utf8_lossy (s ++ repeat NL k) = utf8_lossy s ++ repeat NL k.
+Proof. exact utf8_lossy_app_newlines. Qed.
+
+Theorem subst_value_ignores_trailing_newlines :
+  forall s k, subst_value (s ++ repeat NL k) = subst_value s.
+Proof. exact subst_value_newlines. Qed.
+
 Print Assumptions pipe_conservation.
+Print Assumptions subst_value_is_stripped_decoding.
+Print Assumptions lossy_decoding_keeps_trailing_newlines.
+Print Assumptions subst_value_ignores_trailing_newlines.
 Print Assumptions chain_conservation.
 Print Assumptions chain_transfer_complete_in_order.
 Print Assumptions chain_no_deadlock.
